@@ -125,7 +125,7 @@ theorem C14_sort_length_le (h : IsPreorder cmp) (xs : List α) :
 /-! ## keysort/2 (a stable sort) -/
 
 /-- the comparison of pairs by their keys is a total preorder when the key order is one. -/
-theorem keyCmp_preorder {κ : Type} {kcmp : κ → κ → Ordering} (h : IsPreorder kcmp) :
+theorem C14_keyCmp_preorder {κ : Type} {kcmp : κ → κ → Ordering} (h : IsPreorder kcmp) :
     IsPreorder (fun (a b : κ × α) => kcmp a.1 b.1) where
   refl a := h.refl a.1
   swap a b := h.swap a.1 b.1
@@ -139,7 +139,7 @@ theorem C14_keysort_spec {κ : Type} {kcmp : κ → κ → Ordering} (h : IsPreo
       Sorted (fun (a b : κ × α) => kcmp a.1 b.1) (keysortBy kcmp xs) ∧
       ∀ k : κ × α, cls (fun (a b : κ × α) => kcmp a.1 b.1) k (keysortBy kcmp xs) =
         cls (fun (a b : κ × α) => kcmp a.1 b.1) k xs := by
-  have hk := keyCmp_preorder (α := α) h
+  have hk := C14_keyCmp_preorder (α := α) h
   unfold keysortBy
   rw [msort_eq_isort hk]
   exact ⟨isort_perm xs, isort_sorted hk xs, fun k => cls_isort hk k xs⟩
@@ -153,7 +153,7 @@ theorem C14_keysort_characterisation {κ : Type} {kcmp : κ → κ → Ordering}
       Sorted (fun (a b : κ × α) => kcmp a.1 b.1) ys ∧
       ∀ k : κ × α, cls (fun (a b : κ × α) => kcmp a.1 b.1) k ys =
         cls (fun (a b : κ × α) => kcmp a.1 b.1) k xs := by
-  have hk := keyCmp_preorder (α := α) h
+  have hk := C14_keyCmp_preorder (α := α) h
   unfold keysortBy
   rw [msort_eq_isort hk]
   exact isort_iff hk xs ys
@@ -163,7 +163,7 @@ theorem C14_keysort_idempotent {κ : Type} {kcmp : κ → κ → Ordering} (h : 
     (xs : List (κ × α)) :
     keysortBy kcmp (keysortBy kcmp xs) = keysortBy kcmp xs ∧
       (Sorted (fun (a b : κ × α) => kcmp a.1 b.1) xs → keysortBy kcmp xs = xs) := by
-  have hk := keyCmp_preorder (α := α) h
+  have hk := C14_keyCmp_preorder (α := α) h
   unfold keysortBy
   simp only [msort_eq_isort hk]
   exact ⟨isort_idem hk xs, fun s => isort_of_sorted hk s⟩
@@ -175,7 +175,8 @@ theorem C14_merge_sort_is_stable_sort (h : IsPreorder cmp) (xs : List α) :
 
 /-! ## error cases of the builtins (ISO 8.4.3.3, 8.4.4.3), on terms -/
 
-theorem termSize_ofList (xs : List Term) (tl : Term) :
+/-- helper: the fuel `termSize` is enough to walk a list prefix. -/
+theorem C14_aux_termSize_ofList (xs : List Term) (tl : Term) :
     xs.length < termSize (Term.ofList xs tl) := by
   induction xs with
   | nil => cases tl <;> simp [Term.ofList, termSize]
@@ -187,7 +188,8 @@ theorem termSize_ofList (xs : List Term) (tl : Term) :
 /-- not a list cell. -/
 def NotCons (t : Term) : Prop := ∀ h u, t ≠ .str "." [h, u]
 
-theorem viewList_notCons (tl : Term) (hn : NotCons tl) (fuel : Nat) :
+/-- helper: `viewList` stops at a term that is not a list cell. -/
+theorem C14_aux_viewList_notCons (tl : Term) (hn : NotCons tl) (fuel : Nat) :
     viewList fuel tl = ([], tl) := by
   cases fuel with
   | zero => rfl
@@ -196,13 +198,14 @@ theorem viewList_notCons (tl : Term) (hn : NotCons tl) (fuel : Nat) :
     split
     all_goals first | rfl | exact absurd rfl (hn _ _)
 
-theorem viewList_ofList (xs : List Term) (tl : Term) (hn : NotCons tl) :
+/-- helper: `viewList` splits `[x1,…,xn|tl]` into its elements and `tl`. -/
+theorem C14_aux_viewList_ofList (xs : List Term) (tl : Term) (hn : NotCons tl) :
     ∀ fuel, xs.length < fuel → viewList fuel (Term.ofList xs tl) = (xs, tl) := by
   induction xs with
   | nil =>
     intro fuel _
     simp only [Term.ofList, List.foldr_nil]
-    exact viewList_notCons tl hn fuel
+    exact C14_aux_viewList_notCons tl hn fuel
   | cons x xs ih =>
     intro fuel hf
     cases fuel with
@@ -212,16 +215,17 @@ theorem viewList_ofList (xs : List Term) (tl : Term) (hn : NotCons tl) :
       simp only [Term.ofList, List.foldr_cons, Term.cons] at this ⊢
       simp [viewList, this]
 
-theorem view_ofList (xs : List Term) (tl : Term) (hn : NotCons tl) :
+/-- helper: `view` (generous fuel) splits `[x1,…,xn|tl]` into its elements and `tl`. -/
+theorem C14_aux_view_ofList (xs : List Term) (tl : Term) (hn : NotCons tl) :
     view (Term.ofList xs tl) = (xs, tl) :=
-  viewList_ofList xs tl hn _ (termSize_ofList xs tl)
+  C14_aux_viewList_ofList xs tl hn _ (C14_aux_termSize_ofList xs tl)
 
 /-- sort/2 on a proper list and a variable second argument never raises: it returns the sort.
     (Finding C14-1: the pinned implementation raises `type_error(list, L)` for proper lists such
     as `[c,1]` whose first cells are stored as a partial string.) -/
 theorem C14_sort_total_on_lists (c : Term → Term → Ordering) (xs : List Term) (v : String) :
     sortCall c (Term.ofList xs) (.var v) = .unifyWith (Term.ofList (sortDedup c xs)) := by
-  have h1 := view_ofList xs (.atom "[]") (by intro h u; simp)
+  have h1 := C14_aux_view_ofList xs (.atom "[]") (by intro h u; simp)
   have h2 : view (.var v) = ([], .var v) := by simp [view, viewList, termSize]
   simp only [sortCall, Term.nil, h1, h2]
 
@@ -232,9 +236,9 @@ theorem C14_sort_error_cases (c : Term → Term → Ordering) (xs : List Term) (
     (∀ tl, NotCons tl → (∀ v, tl ≠ .var v) → tl ≠ Term.nil →
       sortCall c (Term.ofList xs tl) s = .typeErr "list" (Term.ofList xs tl)) := by
   refine ⟨fun v => ?_, fun tl hn hv hnil => ?_⟩
-  · have h1 := view_ofList xs (.var v) (by intro h u; simp)
+  · have h1 := C14_aux_view_ofList xs (.var v) (by intro h u; simp)
     simp only [sortCall, h1]
-  · have h1 := view_ofList xs tl hn
+  · have h1 := C14_aux_view_ofList xs tl hn
     simp only [sortCall, h1]
     split
     · rename_i e; simp at e; exact absurd e.2 (hv _)
@@ -254,7 +258,7 @@ theorem C14_keysort_total_on_pair_lists (c : Term → Term → Ordering) (xs : L
       obtain ⟨k, w, rfl⟩ := hp _ List.mem_cons_self
       simp only [pairsError?, pairKey?]
       exact ih fun e he => hp e (List.mem_cons_of_mem _ he)
-  have h1 := view_ofList xs (.atom "[]") (by intro h u; simp)
+  have h1 := C14_aux_view_ofList xs (.atom "[]") (by intro h u; simp)
   have h2 : view (.var v) = ([], .var v) := by simp [view, viewList, termSize]
   simp only [keysortCall, Term.nil, h1, h2, sortedError?, h3]
 
@@ -456,7 +460,7 @@ theorem C14_sum_list (l : List Int) : sumList l = l.sum := by
 /-! ## non-vacuity -/
 
 /-- `compare` on `Nat` is a total order: the hypotheses `IsPreorder` / `IsLinear` are satisfiable. -/
-theorem natLinear : IsLinear (compare : Nat → Nat → Ordering) where
+theorem C14_nat_order_is_linear : IsLinear (compare : Nat → Nat → Ordering) where
   refl a := by simp
   swap a b := by
     rcases Nat.lt_trichotomy a b with h | h | h
